@@ -59,8 +59,8 @@ type vfFix struct {
 
 	mu     sync.Mutex
 	pool   *mempool.SHashTxCache
-	posted []*types.BlockPid     // blocks delivered to the blockchain module
-	txs    []*types.Transaction  // transactions delivered to the mempool module
+	posted []*types.BlockPid      // blocks delivered to the blockchain module
+	txs    []*types.Transaction   // transactions delivered to the mempool module
 	chain  map[int64]*types.Block // what the blockchain module can serve
 	tip    int64
 }
@@ -109,7 +109,7 @@ func vfGet() *vfFix {
 		if err != nil {
 			lib.Inconclusive("gossipsub: %v", err)
 		}
-		for i := byte(1); i <= 3; i++ {
+		for i := byte(1); i <= 4; i++ { // 0..2 senders of generated messages, 3 the sender of the probes
 			id, _ := peer.IDFromPrivateKey(vfKey(i))
 			f.peers = append(f.peers, id)
 		}
@@ -313,7 +313,9 @@ func vfTx(tag string, fee int64) *types.Transaction {
 // vfBlock builds a block over txs with the transaction root in its header.
 func (f *vfFix) vfBlock(height int64, txs []*types.Transaction) *types.Block {
 	b := &types.Block{Height: height, BlockTime: 1700000000 + height, ParentHash: make([]byte, 32), Txs: txs}
-	b.TxHash = merkle.CalcMerkleRoot(f.cfg, height, txs)
+	if len(txs) > 0 {
+		b.TxHash = merkle.CalcMerkleRoot(f.cfg, height, txs)
+	}
 	return b
 }
 
